@@ -182,7 +182,7 @@ def heap_jobs(nmax):
 
 def map_corpus(tier, seed):
     items = []
-    nls = netlist.g2_shapes() + netlist.g3_random(seed, 25 if tier == 'quick' else 250)
+    nls = netlist.g2_shapes() + (netlist.g3_random(seed, 25) if tier == 'quick' else netlist.g3_random(seed, 600) + netlist.g3_random(seed + 1000, 300, max_in=8, max_gates=30, max_dff=5, max_latch=2))
     for j, nl in enumerate(nls):
         style = ('verilog', 'bench', 'lean')[j % 3]
         for reuse in (False, True):
